@@ -66,7 +66,7 @@ def wide_kinds(kinds_q, kinds_t):
 
 
 def bound_text(tier, kinds_q, kinds_t=None):
-    z = "0 deviations: all 1906 fix/cls/gen seeds + 23 large examples x {default, jcl, indent_only}" + (" (generated seeds: default and jcl only)" if tier == "quick" else "")
+    z = "0 deviations: all fix/cls/gen seeds (" + str(len(__import__("vsgmc.corpus", fromlist=["x"]).seed_ids(("fix", "cls", "gen")))) + ") + 23 large examples x {default, jcl, indent_only}" + (" (generated seeds: default and jcl only)" if tier == "quick" else "")
     if tier == "quick":
         d = "1 layout deviation (" + ",".join(kinds_q) + ") at every applicable position of the small-seed slice S_q (<=25 lines, 176 seeds)"
         k = "1 configuration deviation (documented option values, first 2 per option) of each rule on its own fixture"
